@@ -1,7 +1,7 @@
 (* C04 — honest issue-hold-present-verify flows always verify.
    Property theorems only; every proof is `exact <lemma>`. PARTIAL: see C04_statement. *)
 From Coq Require Import List String ZArith NArith Bool.
-From AV Require Import Model.VTypes Model.CL Model.VerifierLegacy Model.VCfg Model.Prover Model.PProps Proofs.C04Proofs Proofs.C04F10 Proofs.C04G6 Proofs.C06S1 Proofs.C06S4 Proofs.C06S5 Proofs.C04R1 Proofs.C04R2 Model.VProps Model.VerifierW3C Proofs.VW3CC1 Proofs.VW3CC2 Proofs.VW3CC3 Proofs.VW3CC4.
+From AV Require Import Model.VTypes Model.CL Model.VerifierLegacy Model.VCfg Model.Prover Model.PProps Proofs.C04Proofs Proofs.C04F10 Proofs.C04G6 Proofs.C06S1 Proofs.C06S4 Proofs.C06S5 Proofs.C04R1 Proofs.C04R2 Model.VProps Model.VerifierW3C Proofs.VW3CC1 Proofs.VW3CC2 Proofs.VW3CC3 Proofs.VW3CC4 Proofs.VW3CC5 Model.CL.
 Import ListNotations.
 
 (* the full statement, for both formats (composition of the prover and verifier models over every
@@ -147,6 +147,31 @@ Theorem C04_w3c_request_data_nonvacuous :
     check_request_data cfg_fixed s_req s_cx cs = ROk [].
 Proof. exact w3c_request_data_nonvacuous. Qed.
 
+(* (3) the W3C verifier model accepts EXACTLY when each of its stages does, in the order of the code (shape; every entry
+   carries a presentation proof; request data; subjects show what the sub-proofs reveal; aggregated proof present;
+   registry map; non-revocation requirement and sub-proof registration; CL verification) ... *)
+Theorem C04_w3c_accept_iff_stages : forall cfg R P cx, verify_w3c cfg R P cx = Accept <-> w3c_stages cfg R P cx.
+Proof. exact verify_w3c_accept_iff. Qed.
+(* ... so acceptance of a W3C presentation follows from served referents and named entries (2), matching subjects, and
+   the registration + CL stage succeeding for whatever entries the searches settle on. What remains unproved for the W3C
+   format is only that the PROVER model's output always meets these premises (decided per case by the correspondence). *)
+Theorem C04_w3c_accepts_served : forall cfg R P cx cs a regmap,
+  f_gate_on_creddef cfg = true ->
+  wp_shape_ok P = true ->
+  mapR (fun c => bind (of_opt (wc_pv c)) (fun pv => ROk (c, pv))) (wp_creds P) = ROk cs ->
+  schemas_present cx cs -> entries_named cx cs ->
+  (forall r ai n, In (r, ai) (rq_attrs R) -> In n (names_of ai) -> attr_name_served cfg R cx cs ai n) ->
+  (forall r pi, In (r, pi) (rq_preds R) -> pred_served cfg R cx cs pi) ->
+  (negb (f_w3c_strict_subject cfg) || forallb (fun '(c, (_, sp)) => subject_matches c sp) cs) = true ->
+  wp_agg P = Some a -> build_regmap cx = ROk regmap ->
+  (forall needs, check_request_data cfg R cx cs = ROk needs ->
+     exists subs, add_all cfg cx regmap needs 0 cs = ROk subs /\ cl_verify (f_common_link cfg) subs a (rq_nonce R) = Accept) ->
+  verify_w3c cfg R P cx = Accept.
+Proof. exact verify_w3c_accepts_served. Qed.
+Theorem C04_w3c_stages_nonvacuous :
+  exists P, create_w3c pcfg_fixed s_req s_cx 7 (pc_sel s_case) = ROk P /\ w3c_stages cfg_fixed s_req P s_cx.
+Proof. exact w3c_stages_nonvacuous. Qed.
+
 Print Assumptions C04_legacy_plain.
 Print Assumptions C04_plain_nonvacuous.
 Print Assumptions C04_legacy_rev.
@@ -162,3 +187,6 @@ Print Assumptions C04_w3c_search_never_misses_attribute.
 Print Assumptions C04_w3c_search_never_misses_predicate.
 Print Assumptions C04_w3c_request_data_complete.
 Print Assumptions C04_w3c_request_data_nonvacuous.
+Print Assumptions C04_w3c_accept_iff_stages.
+Print Assumptions C04_w3c_accepts_served.
+Print Assumptions C04_w3c_stages_nonvacuous.
